@@ -52,6 +52,8 @@ def gen_script(R, kind):
     lines = gen.rand_buffer(R, kind, 9)
     if R.random() < 0.1:
         lines = []
+    elif lines and R.random() < 0.04:
+        lines[R.randrange(len(lines))] = 'Long' * R.choice([1023, 1024, 1100, 2300])       # a line beyond the 4 KiB write batch: order and content of what :w writes
     elif lines and R.random() < 0.25:
         k = R.randrange(len(lines))
         lines[k] = lines[k] + R.choice([' a/b', '/', ' foo/bar'])
